@@ -103,7 +103,9 @@ def run(rep: vk.Report):
         v = VectorVariable("v", n); w = VectorVariable("w", n); w2 = VectorVariable("u", n + 1)
         lefts = [("VectorVariable", v), ("VectorExpression", v * 2 + 1), ("slice", VectorVariable("t", n + 2)[1:n + 1])]
         rights = [("int", 3), ("float", 0.5), ("VectorVariable", w), ("VectorExpression", w - 1), ("list", [float(i) for i in range(n)]),
-                  ("1-d array", np.arange(n, dtype=float)), ("VectorVariable(mismatch)", w2), ("VectorExpression(mismatch)", w2 * 2),
+                  ("1-d array", np.arange(n, dtype=float)), ("1-d array(reversed view)", (np.arange(n, dtype=float) * 1.5 + 0.25)[::-1]),
+                  ("1-d array(strided view)", (np.arange(2 * n, dtype=float) - 1.5)[::2]), ("1-d array(int dtype)", np.arange(n) - 1),
+                  ("list(int)", [i - 1 for i in range(n)]), ("VectorVariable(mismatch)", w2), ("VectorExpression(mismatch)", w2 * 2),
                   ("list(mismatch)", [1.0] * (n + 1)), ("1-d array(mismatch)", np.ones(n + 2)), ("2-d array", np.ones((n, 2))),
                   ("str", "oops"), ("np.float64", np.float64(2.0))]
         for (lname, left), (rname, right) in itertools.product(lefts, rights):
@@ -140,7 +142,12 @@ def run(rep: vk.Report):
     for (lname, left), sense in itertools.product(lefts, ["<=", ">=", "=="]):
         rws, cls = left.rows, left.cols
         asym = np.array([[float(1 + 3 * i - 2 * j + (5 if i > j else 0)) for j in range(cls)] for i in range(rws)])
+        big = np.array([[float(1 + 3 * i - 2 * j + (5 if i > j else 0)) for j in range(2 * cls)] for i in range(2 * rws)])
         rights = [("int", 1), ("float", -0.5), ("2-d array", asym), ("2-d array(transposed values)", asym.T.copy() if rws == cls else asym * 2),
+                  # the same numbers in other memory layouts: element (i, j) is what counts, not where it sits in memory
+                  ("2-d array(Fortran order)", np.asfortranarray(asym)), ("2-d array(transposed view)", asym.T.copy().T if rws != cls else asym.T),
+                  ("2-d array(strided view)", big[::2, ::2]), ("2-d array(reversed view)", asym[::-1, ::-1]),
+                  ("2-d array(int dtype)", np.arange(rws * cls).reshape(rws, cls) - 2),
                   ("2-d array(mismatch)", np.ones((rws, cls + 1))), ("MatrixVariable(mismatch)", MatrixVariable("Q", rws + 1, cls))]
         if rws == cls == 2:
             rights += [("MatrixVariable", N), ("MatrixExpression", N * 2), ("symmetric MatrixVariable", Sy2)]
